@@ -264,7 +264,8 @@ def _is_pure_expr(node, helpers=None):
     for sub in ast.walk(node):
         if isinstance(sub, ast.Call):
             if _call_name(sub.func) not in ("isinstance", "issubclass", "any", "all", "len", "str", "cast", "float",
-                                             "int", "type", "min", "max") and _call_name(sub.func) not in helpers:
+                                             "int", "type", "min", "max", "current_task", "asyncio.current_task",
+                                             "get_running_loop") and _call_name(sub.func) not in helpers:
                 return False
         if isinstance(sub, (ast.Await, ast.Yield, ast.YieldFrom, ast.NamedExpr)):
             return False
